@@ -7,6 +7,7 @@ CONSTANTS
   Exclusions = {"none", "orig", "other"}
   Percents = {"neither", "both", "minonly", "prefixonly"}
   ForgedKinds = {"none", "resp", "sig", "both"}
+  Outdated = {FALSE, TRUE}
   Variant = "intended"
 VIEW TraceView
 INVARIANTS RespEqualsForwarded StationAgrees ForgedFieldsDropped OverridesOnlyIfAllowed SubstituteFromConfiguredSubnets ExcludedNeverReplaced FamiliesAnswered
